@@ -92,12 +92,17 @@ class Ref:
 
 
 class System:
-    def __init__(self, with_adapter, units):
+    def __init__(self, with_adapter, units, precreated=False):
         self.with_adapter = with_adapter
         self.units = units          # unit of the first / second instance
+        self.precreated = precreated   # the search starts from the state in which all instances exist already (a non-initial root)
 
     def new(self):
-        return Impl(self.with_adapter), Ref()
+        impl, ref = Impl(self.with_adapter), Ref()
+        if self.precreated:
+            for u in self.units:
+                self.apply(impl, ref, ["create", u])
+        return impl, ref
 
     def dispose(self, impl):
         impl.close()
@@ -114,6 +119,8 @@ class System:
                 ops.append(["advance", a, kind])
         ops.append(["metrics"])
         ops.append(["full_metrics"])
+        if self.with_adapter and ref.inst:
+            ops.append(["save_state"])
         return ops
 
     # ---------------------------------------------------------------------------------------
@@ -193,6 +200,12 @@ class System:
                 e = ref.inst[op[1]]
                 d = {"eps": EPS, "half": e["T"] / 2, "T-eps": e["T"] - EPS, "T": e["T"], "T+eps": e["T"] + EPS}[op[2]]
                 impl.clock.advance_td(d)
+            elif k == "save_state":
+                # the state of all instances is written out: this is no access to any of them (no timer restarts); not a required sweep trigger either
+                r = c.get("/save-state")
+                if r.status_code != 200:
+                    viol.append(("save-state-status", "%d" % r.status_code))
+                viol += self._check_memory(impl, ref, k)
             elif k in ("metrics", "full_metrics"):
                 self._sweep(impl, ref)
                 r = c.get("/metrics" if k == "metrics" else "/full-metrics")
@@ -261,16 +274,20 @@ class System:
             items.append((a, e["unit"], e["in_memory"], rem, impl.ids[a] in impl.app._instance_manager._instances,
                           impl.app._instance_manager._instances.get(impl.ids[a], {}).get("instance") is not None and
                           impl.app._instance_manager._instances[impl.ids[a]]["instance"].session_state is not None))
-        return (ref.n, tuple(items))
+        from mc import explore
+        mgr = impl.app._instance_manager
+        hidden = (explore.hidden_shape(mgr, skip=("_instances",), scalars=True, now=impl.clock.now),
+                  tuple(tuple(sorted(k for k in mgr._instances.get(impl.ids[a], {}) if k not in ("instance", "time", "timeout"))) for a in sorted(ref.inst)))
+        return (ref.n, tuple(items), hidden)
 
 
 _systems = {}
 
 
 def get_system(cfg):
-    key = (cfg[0], tuple(cfg[1]))
+    key = (cfg[0], tuple(cfg[1]), bool(cfg[2]) if len(cfg) > 2 else False)
     if key not in _systems:
-        _systems[key] = System(cfg[0], list(cfg[1]))
+        _systems[key] = System(cfg[0], list(cfg[1]), key[2])
     return _systems[key]
 
 
@@ -347,8 +364,12 @@ def configs(tier):
     for p in pairs:
         out.append((False, p))
     out.append((True, pairs[0]))
+    # the same search from a non-initial state: both instances exist already (the depth goes into what happens to them afterwards)
+    out.append((True, pairs[0], True))
+    out.append((False, pairs[0], True))
     if tier == "thorough":
         out.append((True, pairs[1]))
+        out.append((True, pairs[1], True))
         out.append((False, ("seconds", "seconds", "minutes")))
     return out
 
@@ -360,19 +381,23 @@ def run(ctx):
     per = {}
     for cfg in core.rot(configs(ctx.tier), ctx.seed):
         d = depth if len(cfg[1]) < 3 else depth - 1
+        if len(cfg) > 2 and cfg[2] and not cfg[0]:
+            d = depth - 1
         res = bfs(cfg, d)
         tot_s += res.states
         tot_t += res.transitions
-        per["%s/%s" % ("adapter" if cfg[0] else "memory", "+".join(cfg[1]))] = {"states": res.states, "transitions": res.transitions, "depth": d}
-        samples += [{"config": [cfg[0], list(cfg[1])], "history": h} for h in res.samples[:1]]
+        pre = len(cfg) > 2 and cfg[2]
+        per["%s/%s%s" % ("adapter" if cfg[0] else "memory", "+".join(cfg[1]), "/both-created-root" if pre else "")] = {"states": res.states, "transitions": res.transitions, "depth": d}
+        samples += [{"config": [cfg[0], list(cfg[1]), bool(pre)], "history": h} for h in res.samples[:1]]
         for sig, hist, detail in res.violations:
-            ctx.violation("C17/%s/%s" % (sig, "adapter" if cfg[0] else "memory"), {"config": [cfg[0], list(cfg[1])], "history": hist}, detail)
+            ctx.violation("C17/%s/%s%s" % (sig, "adapter" if cfg[0] else "memory", "/both-created-root" if pre else ""), {"config": [cfg[0], list(cfg[1]), bool(pre)], "history": hist}, detail)
     if ctx.tier == "thorough":
         realtime_crosscheck(ctx)
     ctx.finish({
         "states": tot_s, "transitions": tot_t, "traces_validated_against_impl": tot_t, "samples": samples, "per_config": per,
-        "rule": "BFS over create(timeout unit)/begin-session/session-results/keep-alive/metrics/full-metrics/advance(eps, T/2, T-eps, T, T+eps per instance) under a "
-                "virtual clock; canonical state = remaining life per instance (0 once expired) + presence flags; every timeout unit appears in a configuration",
+        "rule": "BFS over create(timeout unit)/begin-session/session-results/keep-alive/metrics/full-metrics/save-state (with an adapter)/advance(eps, T/2, T-eps, T, T+eps per instance) under a "
+                "virtual clock; canonical state = remaining life per instance (0 once expired) + presence flags; every timeout unit appears in a configuration; "
+                "two configurations are searched again from the state in which both instances exist",
     }, assumptions=["the server reads time only through datetime.datetime.now() of its own modules (replaced by the harness clock)",
                     "an expired instance accessed itself before any sweep is not judged"])
 
@@ -422,7 +447,7 @@ def realtime_crosscheck(ctx):
 def replay(case):
     if "realtime" in case:
         return None
-    system = get_system((case["config"][0], tuple(case["config"][1])))
+    system = get_system((case["config"][0], tuple(case["config"][1]), bool(case["config"][2]) if len(case["config"]) > 2 else False))
     impl, ref = system.new()
     try:
         for op in case["history"]:
